@@ -296,27 +296,6 @@ def run_real(ctx, kind, tag, sfx, mode, ops, want_validate=False):
 
 
 # --------------------------------------------------------------------------
-# behaviour probe: which variant of the code is under test
-# --------------------------------------------------------------------------
-_CFG = {}
-
-
-def detect_cfg(ctx):
-    """{'exact': bool, 'rocheck': bool} decided by behaviour on the two witness histories"""
-    if "v" in _CFG:
-        return _CFG["v"]
-    h1 = [["nc", "ba", "1"], ["nc", "a", "2"], ["w", "a.fasta", "3"], ["obs"]]
-    r1 = run_real(ctx, "dir", "probe1", "fasta", "w", h1)
-    exact = any(m[0] == NCP + "ba.json" for m in r1[-1]["obs"]["nc"])
-    h2 = [["nc", "a", "1"], ["reopen", "r"], ["drop", ""], ["obs"]]
-    r2 = run_real(ctx, "dir", "probe2", "fasta", "w", h2)
-    rocheck = isinstance(r2[2]["r"], dict) and len(r2[-1]["obs"]["nc"]) == 1
-    _CFG["v"] = dict(exact=exact, rocheck=rocheck)
-    ctx.notes.append(f"code variant detected by behaviour: {_CFG['v']}")
-    return _CFG["v"]
-
-
-# --------------------------------------------------------------------------
 # history generators
 # --------------------------------------------------------------------------
 def gen_history(rng, kind, sfx, pool, nmax=40, p_obs=0.25, every_obs=False, synonyms=True):
@@ -463,7 +442,6 @@ def correspondence(ctx):
         "(sorted member ids, read(), md5, logs) and validate(); spec: Lean dictionary spec vs the Python oracle; "
         "non-trivial = distinct histories with >= 2 state-changing operations"
     )
-    cfg = detect_cfg(ctx)
     _names_stream(ctx, out)
     rng = ctx.subrng("corr")
     n_hist = ctx.budget(110, 4000)
@@ -477,7 +455,7 @@ def correspondence(ctx):
             hist.append((sfx, mode, ops))
         cmd = "dir" if kind == "dir" else "sql"
         model = ctx.driver.batch(
-            [(cmd, dict(exact=cfg["exact"], rocheck=cfg["rocheck"], sfx=sfx, mode=mode, ops=ops)) for sfx, mode, ops in hist]
+            [(cmd, dict(sfx=sfx, mode=mode, ops=ops)) for sfx, mode, ops in hist]
         )
         for i, ((sfx, mode, ops), mod) in enumerate(zip(hist, model)):
             real = run_real(ctx, kind, f"c{i}", sfx, mode, ops, want_validate=True)
@@ -702,6 +680,8 @@ def _classify(kind, sfx, op, res, before, exp, got, oracle_before):
             feats.append("completed-exists")
     if oracle_before.mode == "r" and k in ("w", "nc", "log", "drop"):
         parts = ["readonly-mutated"]
+    if oracle_before.mode == "a" and k in ("w", "nc"):
+        feats.append("mode-a")
     if isinstance(res, dict):
         feats.append("raised-" + res["err"])
     if ic and kind == "dir":
@@ -861,17 +841,16 @@ def spec_check(ctx, budget):
         mode, ops = gen_history(rng, kind, sfx, pool, nmax=40 if i % 3 else 12)
         cases.append((kind, sfx, mode, [op for op in ops if op[0] != "obs"]))
     seen_sigs = {}
-    # which histories satisfy the hypotheses (hyg, safeHist) of store_refines_dict_partial for the code variant under test
+    # which histories satisfy the hypotheses (hyg, safeHist) of store_refines_dict_partial
     covered = {}
     drv = getattr(ctx, "driver", None)
     if drv is not None:
-        cfg = detect_cfg(ctx)
         idx = [i for i, c in enumerate(cases) if c[0] == "dir"]
         reqs = []
         for i in idx:
             kind, sfx, mode, ops = cases[i]
             ids = sorted({op[1] for op in ops if op[0] in ("w", "nc", "drop") and op[1]})
-            reqs.append(("safe", dict(exact=cfg["exact"], rocheck=cfg["rocheck"], sfx=sfx, mode=mode, ids=ids, ops=ops)))
+            reqs.append(("safe", dict(sfx=sfx, mode=mode, ids=ids, ops=ops)))
         for i, r in zip(idx, drv.batch(reqs)):
             covered[i] = bool(r.get("hyg") and r.get("safe"))
     for i, (kind, sfx, mode, ops) in enumerate(cases):
